@@ -8,3 +8,7 @@ res = run._worker((sys.argv[1], sys.argv[2], json.loads(sys.argv[3]), json.loads
 print(json.dumps({k: v for k, v in res.items() if k in ("stats", "errors", "wall_s")}, indent=1, default=str)[:3000])
 for oid, o in sorted(res.get("obligations", {}).items()):
     print(oid, {k: v for k, v in o.items() if k in ("checked", "proved", "failed", "unknown")})
+for oid, o in sorted(res.get("obligations", {}).items()):
+    for c in (o.get("cex") or o.get("counterexamples") or [])[:3]:
+        print("CEX", oid, c.get("info") if isinstance(c, dict) else c)
+print([k for k in res.get("obligations", {}).get("nocrash", {}).keys()])
